@@ -48,6 +48,12 @@ class Slot:
         return ob.root_of(self.t)
 
 
+# operations / constructor routes that never set an active range: there the range is (0, declared shape)
+# or, without a declared shape, (0, largest coordinate + 1) at the time of the question
+PLAIN_OPS = ("ref", "hw", "posref", "get", "getpos", "r0", "append", "extend", "updc", "updp", "clear", "ro")
+PLAIN_ROUTES = ("empty", "noshape", "unc", "fib", "yaml")
+
+
 def dec_coord(c):
     return tuple(dec_coord(x) for x in c) if isinstance(c, list) else c
 
@@ -132,6 +138,7 @@ class TreeSim(WorldBase):
         super().__init__(prop, cfg, scratch)
         self.slots = {}
         self.snaps = {}
+        self.nonplain = set()        # slots whose fibers may carry an explicitly set active range
         self.tasks = {}
         self.next_tid = 1
         self.handles = []
@@ -239,6 +246,8 @@ class TreeSim(WorldBase):
             if isinstance(res, dict):
                 out.update(res)
                 status = res.get("status", "ok")
+            if not (kind == "op" and (ev[1] in PLAIN_OPS or ev[1] == "new")):
+                self.nonplain |= targets      # active ranges may now have been set explicitly
         except Skip as e:
             out = {"status": "skipped", "why": str(e)}
             self.sched.append(["skip"])
@@ -459,6 +468,10 @@ class TreeSim(WorldBase):
                 if i in a["fmtU"]:
                     t.setFormat(t.getRankIds()[i], "U")
         self.slots[s] = Slot(t, shape, default, route)
+        if route in PLAIN_ROUTES or (route == "dcopy" and a["src"] not in self.nonplain):
+            self.nonplain.discard(s)
+        else:
+            self.nonplain.add(s)
         self.probe("new:" + route)
         for h in self.handles:
             if h["slot"] == s:
@@ -1120,6 +1133,16 @@ class TreeSim(WorldBase):
             if not (isinstance(lo, int) and isinstance(hi, int)):
                 self.tasks.pop(tid)
                 raise Skip("U needs an integer active range")
+            if as_ not in self.nonplain and all(isinstance(c, int) for c in af.coords):
+                # nothing ever set an active range on this tensor: the range is the declared shape or,
+                # without one, what the fiber holds now (not what it held at some earlier question)
+                auth = asl.t.getShape(authoritative=True) if not asl.free else None
+                lo = 0
+                hi = auth[alevel] if auth is not None else (max(af.coords) + 1 if af.coords else 0)
+                if not isinstance(hi, int):
+                    self.tasks.pop(tid)
+                    raise Skip("U needs an integer shape")
+                self.probe("populate_U_source_modelled_range")
             exp = list(range(lo, hi))
             self.probe("populate_U_source")
         else:
